@@ -351,22 +351,31 @@ func runC18(p *core.Program, r *core.Report) {
 					phi, _ = cd.Y.(*ssa.Phi)
 					wantInit = 1
 				}
-				if phi == nil || len(phi.Edges) != 2 || !loop[phi.Block()] {
+				if phi == nil || len(phi.Edges) < 2 || !loop[phi.Block()] {
 					continue
 				}
-				// edges: one constant init from outside, one "+1" from inside
-				initOK, stepOK := false, false
+				// edges: constant init from outside the loop, "+1" on every back edge
+				initOK, stepOK := true, true
+				nIn, nOut := 0, 0
 				for i, e := range phi.Edges {
 					pred := phi.Block().Preds[i]
 					if !loop[pred] {
-						if c, ok := path.IntConst(e); ok && c == wantInit {
-							initOK = true
+						nOut++
+						if c, ok := path.IntConst(e); !ok || c != wantInit {
+							initOK = false
 						}
-					} else if bo, ok := e.(*ssa.BinOp); ok && bo.Op == token.ADD && bo.X == ssa.Value(phi) {
-						if c, ok := path.IntConst(bo.Y); ok && c == 1 {
-							stepOK = true
+					} else {
+						nIn++
+						bo, ok := e.(*ssa.BinOp)
+						if !ok || bo.Op != token.ADD || bo.X != ssa.Value(phi) {
+							stepOK = false
+						} else if c, ok := path.IntConst(bo.Y); !ok || c != 1 {
+							stepOK = false
 						}
 					}
+				}
+				if nIn == 0 || nOut == 0 {
+					initOK = false
 				}
 				if !initOK || !stepOK {
 					why = "the loop counter is not initialised to a constant and incremented by one on the only back edge"
@@ -417,6 +426,66 @@ func runC18(p *core.Program, r *core.Report) {
 			}
 			if !loop[b.Succs[nilIdx]] && loop[b.Succs[1-nilIdx]] {
 				stop = true
+			}
+		}
+		// ER4: on the success exit the error handed back is nil (the constant, or the value just tested)
+		for b := range loop {
+			iff := path.BlockIf(b)
+			if iff == nil {
+				continue
+			}
+			x, nonNilOnTrue, ok := path.NilTestOf(iff)
+			if !ok {
+				continue
+			}
+			isRes := false
+			for _, o := range path.Origins(x) {
+				if o == cv {
+					isRes = true
+				}
+			}
+			if !isRes {
+				continue
+			}
+			nilIdx := 0
+			if nonNilOnTrue {
+				nilIdx = 1
+			}
+			if loop[b.Succs[nilIdx]] {
+				continue
+			}
+			// follow the success edge to the return, resolving phis by incoming edge
+			pred, cur := b, b.Succs[nilIdx]
+			var got ssa.Value
+			var at ssa.Instruction
+			for steps := 0; steps < 8 && cur != nil; steps++ {
+				last := cur.Instrs[len(cur.Instrs)-1]
+				if ret, ok := last.(*ssa.Return); ok {
+					v := ret.Results[len(ret.Results)-1]
+					if phi, ok := v.(*ssa.Phi); ok && phi.Block() == cur {
+						for i, pb := range cur.Preds {
+							if pb == pred {
+								v = phi.Edges[i]
+							}
+						}
+					}
+					got, at = v, ret
+					break
+				}
+				if _, ok := last.(*ssa.Jump); ok {
+					pred, cur = cur, cur.Succs[0]
+					continue
+				}
+				break
+			}
+			if got == nil {
+				continue
+			}
+			okE := path.IsNil(got) || got == x
+			r.Obligation("ER4", okE, map[string]any{"rule": "ER4", "function": name, "what": "success exit returns a nil error", "at": p.InstrPos(at), "ok": okE})
+			if !okE {
+				r.Violation(core.Diag{Rule: "ER4", Func: name, Object: "error on success", Pos: p.InstrPos(at),
+					Reason: "the return reached when the callback succeeded hands back an error value that is neither the nil constant nor the result just tested: a stale failure is reported after a successful attempt"})
 			}
 		}
 		r.Obligation("PT3", stop, map[string]any{"rule": "PT3", "function": name, "what": "loop left on the first nil error", "ok": stop})
